@@ -38,7 +38,7 @@ ASSUMPTIONS = ['faults are injected into filesystem calls made until the applica
 # which filesystem calls the implementation makes is its own business: only "some fault was injected" is required,
 # the per-call counters (fault:open, fault:getmtime, ...) are reported in the evidence
 REQUIRED_REACH = ['served-and-compared', 'canonical-file-served', 'escape:dotdot-refused', 'escape:absolute-refused',
-                  'escape:secret-path-pieces-refused', 'noncanonical-contained', 'fault-injected', 'fallthrough-to-second-app', '304-observed', 'first-search-path-wins',
+                  'escape:secret-path-pieces-refused', 'noncanonical-contained', 'fault-injected', 'fault-on-every-call-about-one-file', 'clean-request-after-fault', 'clean-request-after-fault:name-in-two-search-paths', 'fallthrough-to-second-app', '304-observed', 'first-search-path-wins',
                   'audit-opens-seen', 'mode:redirect', 'mode:rewrite', 'mode:strict']
 NSHARDS = 16
 ERRNOS = [errno.ENOENT, errno.EACCES, errno.EIO, errno.EISDIR]
@@ -293,7 +293,8 @@ class Faults(object):
         import clastic.static as st
         self.st = st
         self.calls = []
-        self.fail_at = None        # (k, errno)
+        self.paths = []
+        self.fail_at = None        # (k, errno) or ('path', errno, path)
         self.fired = None
         self.active = False
         real_isfile = os.path.isfile
@@ -303,6 +304,14 @@ class Faults(object):
             if not faults.active:
                 return None
             faults.calls.append(site)
+            if path is not None and path not in faults.paths:
+                faults.paths.append(path)
+            if faults.fail_at and faults.fail_at[0] == 'path':
+                # every call about one file fails for the length of the request (a permission flip, a dying disk)
+                if path is not None and path == faults.fail_at[2]:
+                    faults.fired = 'path:' + site
+                    return faults.fail_at[1]
+                return None
             if faults.fail_at and len(faults.calls) == faults.fail_at[0]:
                 faults.fired = site
                 return faults.fail_at[1]
@@ -394,11 +403,16 @@ def judge_faults(sh, cfg, segs, faults, headers=None):
     finally:
         faults.active = False
     sites = list(faults.calls)
+    paths = list(faults.paths)
+    faults.paths = []
     kind, target = classify(segs, cfg.served, cfg.prefix.rstrip('/') == '')
     n_eval = 0
-    for k in range(1, len(sites) + 1):
-        for en in ERRNOS:
-            faults.active, faults.calls, faults.fail_at, faults.fired = True, [], (k, en), None
+    points = [(k, en) for k in range(1, len(sites) + 1) for en in ERRNOS]
+    points += [('path', en, p) for p in paths for en in ERRNOS[:2]]
+    for point in points:
+        k, en = point[0], point[1]
+        for _ in (0,):
+            faults.active, faults.calls, faults.fail_at, faults.fired = True, [], point, None
             try:
                 ex, _ = serve(cfg, segs, headers=headers, faults=faults)
             finally:
@@ -408,10 +422,13 @@ def judge_faults(sh, cfg, segs, faults, headers=None):
                 continue
             sh.hit('fault-injected')
             sh.hit('fault:' + faults.fired)
+            if k == 'path':
+                sh.hit('fault-on-every-call-about-one-file')
             case = {'roots': len(cfg.roots), 'two_apps': cfg.two_apps, 'prefix': cfg.prefix, 'mode': cfg.mode, 'segs': segs,
                     'fault': [k, en], 'headers': headers}
-            what = '[%s] GET %r with %s failing (%s) at filesystem call %d of %r' % (
-                cfg.label, cfg.raw_path(segs), faults.fired, errno.errorcode[en], k, sites)
+            what = '[%s] GET %r with %s failing (%s) at filesystem call %s of %r' % (
+                cfg.label, cfg.raw_path(segs), faults.fired, errno.errorcode[en],
+                k if k != 'path' else 'about ' + os.path.relpath(point[2], cfg.tree.base), sites)
             if ex.exc is not None:
                 sh.violation('C14/fault-escapes:' + faults.fired, '%s -> %s escaped' % (what, probe.safe_repr(ex.exc)[:200]), case)
                 continue
@@ -424,6 +441,16 @@ def judge_faults(sh, cfg, segs, faults, headers=None):
                 if ex.body not in ok_bodies:
                     sh.violation('C14/fault-wrong-bytes:' + faults.fired, '%s -> 200 with foreign bytes %r' % (what, ex.body[:80]), case)
                     continue
+            # a clean request right after the fault: nothing of the fault may stick to the application
+            ex_after, _ = serve(cfg, segs, headers=headers)
+            if ex_after.exc is not None or (ex_after.status, ex_after.body) != (ex0.status, ex0.body):
+                sh.violation('C14/fault-leaves-a-trace:' + faults.fired,
+                             '%s -> the next, fault-free request answers %s (%d bytes) instead of %s (%d bytes)'
+                             % (what, ex_after.status, len(ex_after.body), ex0.status, len(ex0.body)), case)
+                continue
+            sh.hit('clean-request-after-fault')
+            if len(cfg.roots) > 1 and not cfg.two_apps and target in ('both.txt', 'sub/c.html'):
+                sh.hit('clean-request-after-fault:name-in-two-search-paths')
             if cfg.two_apps and target and ex0.status == 200:
                 alt = os.path.join(cfg.roots[1], target)
                 first = os.path.join(cfg.roots[0], target)
@@ -528,7 +555,9 @@ def run_shard(sh, spec):
         pool += [(cfg, ['missing.txt']) for cfg in cfgs] + [(cfg, ['sub']) for cfg in cfgs] + [(cfg, ['..', 'secret.txt']) for cfg in cfgs]
         rng.shuffle(pool)
         two = [(c, s) for c, s in pool if c.two_apps and '/'.join(s) in ('both.txt', 'sub/c.html')]
-        chosen = two[:2] + pool[:spec['fault_requests']]
+        # one application searching two directories that both hold the name: a fault on the first copy must not stick
+        multi = [(c, s) for c, s in pool if len(c.roots) > 1 and not c.two_apps and '/'.join(s) in ('both.txt', 'sub/c.html')]
+        chosen = two[:2] + multi[:2] + pool[:spec['fault_requests']]
         for cfg, segs in chosen:
             for hdrs in (None, {'If-Modified-Since': 'Thu, 01 Jan 2015 00:00:00 GMT'}):
                 n, sites = judge_faults(sh, cfg, segs, faults, headers=hdrs)
